@@ -26,6 +26,17 @@ end CI
 /-- Horner evaluation over a closed interval: an enclosure of `{p(x) | x ∈ X}` -/
 def ieval (p : QPoly) (X : CI) : CI := p.foldr (fun c acc => CI.add (CI.pt c) (CI.mul X acc)) (CI.pt 0)
 
+/-- Taylor shift: the coefficients of p(m + h) as a polynomial in h -/
+def taylor : QPoly → Rat → QPoly
+  | [], _ => []
+  | c :: p, m => add [c] (mul [m, 1] (taylor p m))
+
+/-- centred form: evaluate p(m + h) for h ∈ [lo − m, hi − m] around the midpoint m.  Unlike plain Horner
+    evaluation it does not lose precision far from the origin. -/
+def ievalC (p : QPoly) (X : CI) : CI :=
+  let m := (X.lo + X.hi) / 2
+  ieval (taylor p m) ⟨X.lo - m, X.hi - m⟩
+
 /-- description of the real roots inside an open interval: exact rational roots and open intervals
     holding exactly one root each, in increasing order -/
 inductive Cell
@@ -37,8 +48,8 @@ deriving Repr, DecidableEq
 def isoLoop (p dp : QPoly) : Nat → Rat → Rat → Option (List Cell)
   | 0, _, _ => none
   | fuel+1, a, b =>
-    if (ieval p ⟨a, b⟩).excl0 then some []
-    else if (ieval dp ⟨a, b⟩).excl0 then
+    if (ievalC p ⟨a, b⟩).excl0 then some []
+    else if (ievalC dp ⟨a, b⟩).excl0 then
       (if eval p a * eval p b < 0 then some [Cell.iv a b] else some [])
     else
       match isoLoop p dp fuel a ((a + b) / 2), isoLoop p dp fuel ((a + b) / 2) b with
@@ -48,7 +59,8 @@ def isoLoop (p dp : QPoly) : Nat → Rat → Rat → Option (List Cell)
 def isoFuel : Nat := 200
 
 /-- roots in the open interval (a, b), a < b -/
-def isolateOpen (p : QPoly) (a b : Rat) : Option (List Cell) := isoLoop p (derivative p) isoFuel a b
+def isolateOpen (p : QPoly) (a b : Rat) : Option (List Cell) :=
+  if isZero p then none else isoLoop p (derivative p) isoFuel a b
 
 /-- number of distinct roots of `p` in an interval with the given end-point strictness (a ≤ b) -/
 def countIn (p : QPoly) (a : Rat) (aOpen : Bool) (b : Rat) (bOpen : Bool) : Option Nat :=
